@@ -495,15 +495,17 @@ func c07iterProbe(c *core.Ctx) {
 	y := `module it { namespace "urn:it"; prefix it; revision 2020-01-01;
   container a { list l { key k; leaf k { type string; } leaf n { type int32; } list in { key i; leaf i { type int32; } } } }
   list top { key "x y"; leaf x { type string; } leaf y { type int32; } }
+  typedef kt { type string; default "r1"; } typedef nt { type int32; default 5; }
+  list tk { key "k n"; leaf k { type kt; } leaf n { type nt; } leaf v { type kt; } }
 }`
 	m, err := parser.LoadModuleFromString(nil, y)
 	if err != nil {
 		c.Violation(core.Replay{Kind: "harness", Summary: "c07iter module: " + err.Error(), NoInputFound: true})
 		return
 	}
-	doc := `{"a":{"l":[{"k":"r0","n":0,"in":[{"i":1},{"i":2},{"i":3}]},{"k":"r1","n":10},{"k":"r2","n":20,"in":[{"i":7}]},{"k":"r3","n":30},{"k":"r4","n":40}]},"top":[{"x":"p","y":1},{"x":"p","y":2},{"x":"q","y":1}]}`
+	doc := `{"a":{"l":[{"k":"r0","n":0,"in":[{"i":1},{"i":2},{"i":3}]},{"k":"r1","n":10},{"k":"r2","n":20,"in":[{"i":7}]},{"k":"r3","n":30},{"k":"r4","n":40}]},"top":[{"x":"p","y":1},{"x":"p","y":2},{"x":"q","y":1}],"tk":[{"k":"r1","n":5,"v":"r1"},{"k":"r2","n":5,"v":"x"},{"k":"r1","n":6}]}`
 	for _, find := range []string{"a/l", "a/l?fc.range=!1-2", "a/l?fc.range=!2-", "a/l?fc.range=!0-0", "a/l?fc.range=!7-9", "a/l?fc.range=!3-1", "a/l?fc.range=!4-4", "a/l?where=n>15", "a/l?where=n<0", "a/l?where=n>5&fc.range=!1-2",
-		"a/l=r0/in?fc.range=!1-1", "a/l=r0/in?where=i>1", "top?fc.range=!1-2", "top?where=y%3D1", "a/l?depth=1", "a/l?content=config"} {
+		"a/l=r0/in?fc.range=!1-1", "a/l=r0/in?where=i>1", "top?fc.range=!1-2", "top?where=y%3D1", "tk?with-defaults=trim", "tk", "tk?with-defaults=trim&fc.range=!1-2", "a/l?depth=1", "a/l?content=config"} {
 		var walked, read []string
 		e := safeDo(func() error {
 			src, err := nodeutil.ReadJSON(doc)
